@@ -545,6 +545,36 @@ func staticPairs(path string) map[string]string {
 	return out
 }
 
+var assignRe = regexp.MustCompile(`^\s*(?:[A-Za-z_]\w*)(?:\.[A-Za-z_]\w*)*\.([A-Za-z_]\w*)(?:\[[^\]]*\])?\s*(?:=[^=]|\+\+|--|\+=|-=)`)
+
+// writtenField: for a race whose sites the translator does not know, the
+// "<writing function>:<field>" read off the source line of the write access
+// (`x.y.f = ...`, `x.f++`, `x.f[k] = ...`); "" when that line is not such a statement.
+func writtenField(repo string, r race) string {
+	var cands []site
+	if r.AWrite {
+		cands = append(cands, r.A)
+	}
+	if r.BWrite {
+		cands = append(cands, r.B)
+	}
+	sort.Slice(cands, func(i, j int) bool { return cands[i].Fn < cands[j].Fn })
+	for _, st := range cands {
+		raw, err := os.ReadFile(filepath.Join(repo, st.File))
+		if err != nil {
+			continue
+		}
+		lines := strings.Split(string(raw), "\n")
+		if st.Line < 1 || st.Line > len(lines) {
+			continue
+		}
+		if m := assignRe.FindStringSubmatch(lines[st.Line-1]); m != nil {
+			return shortFn(st.Fn) + ":" + m[1]
+		}
+	}
+	return ""
+}
+
 func adminLine(out string) string {
 	for _, l := range strings.Split(out, "\n") {
 		if strings.HasPrefix(l, "C18ADMIN ") {
@@ -737,6 +767,7 @@ func main() {
 				Observed: fmt.Sprintf("admitted=%d refused=%d errors=%d", res.Admitted, res.Refused, res.Errors), Case: sc})
 		}
 		seen := map[string]bool{}
+		unmapped := 0
 		for _, r := range parseRaces(abs, repo) {
 			if r.A.File == "" && r.B.File == "" {
 				continue // no frame inside the repository: not about engine state
@@ -748,6 +779,10 @@ func main() {
 			if len(fields) > 0 {
 				sort.Strings(fields)
 				sig = "race:" + fields[0]
+			} else if w := writtenField(repo, r); w != "" {
+				// outside the translator's packages: named by the writing function and the
+				// field its source line assigns (one signature per racy field, whoever reads it)
+				sig = "race:unmapped:" + w
 			} else {
 				fns := []string{shortFn(r.A.Fn), shortFn(r.B.Fn)}
 				sort.Strings(fns)
@@ -758,6 +793,13 @@ func main() {
 			}
 			seen[sig] = true
 			o.Count("report:" + sig)
+			if strings.HasPrefix(sig, "race:unmapped:") {
+				// an unsynchronised publication makes every later read of the published object a
+				// report of its own: all are counted, the first few per scenario become hits
+				if unmapped++; unmapped > 8 {
+					continue
+				}
+			}
 			o.Hit(c.Hit{Suite: "stress", Index: i, Signature: sig,
 				Demanded: "no unsynchronised access to shared engine state",
 				Observed: fmt.Sprintf("data race (write=%v) %s %s:%d  vs (write=%v) %s %s:%d", r.AWrite, r.A.Fn, r.A.File, r.A.Line,
